@@ -54,7 +54,7 @@ def gen_net(rng, big=False, hyd=False):
     for i in range(rng.choice([0, 1, 1, 2])):
         nodes.append(dict(name="T%d" % (i + 1), kind="T", elev=float(rng.choice([30, 32.5, 35])),
                           xy=[float(rng.randint(-40, 40)), float(rng.randint(-40, 40))], demands=[]))
-    bases = [0.0, 0.001, 0.002, 0.0005, 0.004, 0.00125]
+    bases = [0.0, 0.001, 0.002, 0.0005, 0.004, 0.00125, -0.00075, -0.0005]  # negative = inflow modelled as a demand
     for i in range(nj):
         dem = []
         for _ in range(rng.choice([1, 1, 1, 2, 3])):
